@@ -10,6 +10,7 @@ package interp
 //     documents to the scratch directory and the real decoder reads them.
 
 import (
+	"bufio"
 	"go/types"
 	"path"
 	"sort"
@@ -313,5 +314,49 @@ func init() {
 			panic(engineError{"yaml model: Decode target must be a non-nil pointer"})
 		}
 		return yamlDecode(fr, node, tp, pt.Elem())
+	}
+}
+
+// ---- bytes.Reader / strings.Reader / bufio.Scanner on concrete contents -----------------------------
+// The readers carry their (concretised) content; a bufio.Scanner over such a reader is the real library
+// object, driven natively (token size limit, CR stripping and error reporting are the library's own).
+
+type vreader struct{ content string }
+
+func init() {
+	I := intrinsics
+	I["bytes.NewReader"] = func(fr *frame, a []value) value {
+		return newPtr(nativeObj{&vreader{fr.i.ex.concStr(bytesAsStr(a[0]))}})
+	}
+	I["strings.NewReader"] = func(fr *frame, a []value) value {
+		return newPtr(nativeObj{&vreader{fr.i.ex.concStr(a[0])}})
+	}
+	I["bufio.NewScanner"] = func(fr *frame, a []value) value {
+		r, _ := a[0].(iface)
+		vr, ok := nativeOfLoose(r.v).(*vreader)
+		if !ok {
+			panic(engineError{"bufio.NewScanner on a reader that is not a modelled bytes/strings reader"})
+		}
+		return newPtr(nativeObj{bufio.NewScanner(strings.NewReader(vr.content))})
+	}
+	sc := func(a value) *bufio.Scanner {
+		s, ok := nativeOfLoose(a).(*bufio.Scanner)
+		if !ok {
+			panic(engineError{"bufio.Scanner method on an unknown scanner"})
+		}
+		return s
+	}
+	I["(*bufio.Scanner).Scan"] = func(fr *frame, a []value) value { return sc(a[0]).Scan() }
+	I["(*bufio.Scanner).Text"] = func(fr *frame, a []value) value { return sc(a[0]).Text() }
+	I["(*bufio.Scanner).Bytes"] = func(fr *frame, a []value) value { return ropeBytes{string(sc(a[0]).Bytes())} }
+	I["(*bufio.Scanner).Err"] = func(fr *frame, a []value) value {
+		if err := sc(a[0]).Err(); err != nil {
+			return mkError(fr, err.Error())
+		}
+		return nilError()
+	}
+	I["(*bufio.Scanner).Buffer"] = func(fr *frame, a []value) value {
+		sc(a[0]).Buffer(make([]byte, 0, 4096), int(asInt64(fr.i.ex.concInt(a[2], "bufio.Scanner.Buffer max"))))
+		return nil
 	}
 }
